@@ -20,7 +20,8 @@ def main():
     tier = args.tier if args.tier in ("quick", "thorough") else "quick"
     seed = int(os.environ.get("VERIF_SEED", "0") or 0)
     prop = args.prop
-    with core.Lock():
+    with core.Lock() as lock:
+        core.LOCK = lock
         ctx = core.Ctx(prop, tier, seed)
         ctx.replay_file = args.replay
         mod = importlib.import_module(f"harness.{prop.lower()}")
@@ -44,6 +45,7 @@ def main():
         if hits:
             print("CHECK BROKEN: forbidden constructs in the Coq development:\n" + "\n".join(hits))
             sys.exit(2)
+        lock.share()
         try:
             mod.run(ctx)
         except Exception:  # a crash of the harness itself is a broken check, not a violation
